@@ -10,7 +10,7 @@
    any number of transactions / keys (duplicates allowed) / timestamps.  [reach sf ns s]: the same with
    distinct keys in every Lock (what txn.go passes).  held l = the first lacq keys of l (sorted by genLock). *)
 From Coq Require Import NArith List.
-From Verif Require Import Latch.Model Latch.ProofsOps Latch.ProofsBase Latch.ProofsInv Latch.ProofsSys Latch.ProofsLive Latch.ProofsRec Latch.ProofsThm.
+From Verif Require Import Latch.Model Latch.ProofsOps Latch.ProofsBase Latch.ProofsInv Latch.ProofsSys Latch.ProofsLive Latch.ProofsRec Latch.ProofsClient Latch.ProofsThm Latch.ProofsEx.
 Import ListNotations.
 
 (* Exclusive (no hypothesis on the key lists): a lock counts a key as acquired iff the key's node names it as
@@ -99,6 +99,24 @@ Theorem C17_no_deadlock : forall sf ns s, reach sf ns s -> closed (gl s) = false
   (forall sl, waitS (lat s) sl = []).
 Proof. exact no_latch_held. Qed.
 Print Assumptions C17_no_deadlock.
+
+(* The caller contract tied to the system. [cproj] = the client actions of a run (CLock at LStart, CRet when a pc becomes
+   TDone with the verdict, CUnlock at LUnlock). If they satisfy client_ok, no lock is left returned-but-not-unlocked. *)
+Theorem C17_client_ok_run : forall sf ns tr s, run sf ns tr init_state = Some s ->
+  client_okb (cproj sf ns tr init_state) = true -> forall i, pc s i <> TDone.
+Proof. exact client_ok_no_done. Qed.
+Print Assumptions C17_client_ok_run.
+
+(* Liveness under the caller contract, in one statement: a run (distinct keys per Lock, not closed) whose client actions
+   are client_ok and after which no step of a thread inside Lock() or of run() is enabled ends with every transaction
+   released, no key held, no waiter. With C17_reaches_quiescence (such runs cannot go on for ever) this is: every
+   schedule of a client_ok population that keeps taking enabled steps reaches quiescence with no latch held. *)
+Theorem C17_live_client_ok : forall sf ns tr s, Forall (allowed (@NoDup key)) tr -> run sf ns tr init_state = Some s ->
+  closed (gl s) = false -> client_okb (cproj sf ns tr init_state) = true -> sys_stuck sf ns s ->
+  (forall i, pc s i = TNew \/ pc s i = TRel) /\ (forall k, holderK sf (lat s) k = None) /\
+  (forall sl, waitS (lat s) sl = []).
+Proof. exact live_client_ok. Qed.
+Print Assumptions C17_live_client_ok.
 
 (* The composite acquire() of latch.go (used by Lock() and wakeup()) is the iteration of the atomic steps *)
 Theorem C17_acquire_is_steps : forall sf ns s i L' r, reach_any sf ns s -> pc s i = TAcq ->
@@ -240,3 +258,12 @@ Example C17_ex_missed_conflict :
                 LStart 1 [1]%N (u + 1)%N; LAcq 1] init_state)
   = Some (TDone, false, Some 1).
 Proof. vm_compute. reflexivity. Qed.
+
+(* client actions of concrete runs: the complete run is client_ok; the run in which the stale lock 1 is never unlocked
+   (seed C17-5) is not, and the projection is what one expects *)
+Example C17_ex_cproj :
+  (client_okb (cproj sf0 1 tr_finish init_state) = true) /\
+  (client_okb (cproj sf0 1 (tr_handoff ++ [LRel; LWake; LTrig; LAcq 2]) init_state) = false) /\
+  (cproj sf0 1 (tr_handoff ++ [LRel; LWake]) init_state
+   = [CLock 0 1%N; CLock 1 2%N; CLock 2 7%N; CRet 0 false; CUnlock 0 5%N; CRet 1 true]).
+Proof. vm_compute. repeat split. Qed.
